@@ -108,6 +108,52 @@ func VerifC04_v2_nums() {
 		verifAssert("accepted:z", (got.Z != nil) == (z.kind == wNumber) && (got.Z == nil || int64(*got.Z) == z.v))
 		verifAssert("accepted:u", (got.U != nil) == (u.kind == wNumber) && (got.U == nil || uint64(*got.U) == u.v))
 	}
+	// ---- C14
+	parts := map[string]any{}
+	b := &server.NumsRequestBody{}
+	if xPresent {
+		b.X = &x
+	}
+	if yPresent {
+		b.Y = &y
+	}
+	parts["body"] = b
+	switch z.kind {
+	case wNumber:
+		parts["query:z"] = z.v
+	case wJunk:
+		parts["query:z"] = z.raw
+	}
+	switch rr.kind {
+	case wNumber:
+		parts["query:rf"] = rr.v
+	case wJunk:
+		parts["query:rf"] = rr.raw
+	}
+	negativeU := false
+	switch u.kind {
+	case wNumber:
+		parts["query:u"] = u.v
+	case wJunk:
+		if u.raw == "-1" {
+			parts["query:u"] = int64(-1) // a negative number is still an integer for the schema
+			negativeU = true
+		} else {
+			parts["query:u"] = u.raw
+		}
+	}
+	if rNaN {
+		return // NaN cannot be written in a JSON-typed contract: outside the schema's value space
+	}
+	specOK := verifSchemaAccepts(openapiDoc, "POST /nums", parts)
+	switch {
+	case !xHighOK:
+		verifAssert("openapi:schema-accepts-iff-server-accepts[exclusive-max-with-exclusive-min]", specOK == ran)
+	case negativeU:
+		verifAssert("openapi:schema-accepts-iff-server-accepts[unsigned-without-minimum]", specOK == ran)
+	default:
+		verifAssert("openapi:schema-accepts-iff-server-accepts", specOK == ran)
+	}
 }
 
 var verifPat = regexp.MustCompile("^[a-z]+$")
@@ -189,5 +235,19 @@ func VerifC04_v2_strs() {
 	} else {
 		verifAssert("accepted:s", got.S == s)
 		verifAssert("accepted:hs", (got.Hs != nil) == hsPresent && (got.Hs == nil || *got.Hs == hs))
+	}
+	// ---- C14 (format keywords are advisory in OpenAPI and are not compared)
+	if ip == nil {
+		parts := map[string]any{}
+		b := &server.StrsRequestBody{E: e, Pat: pat}
+		if sPresent {
+			b.S = &s
+		}
+		parts["body"] = b
+		if hsPresent {
+			parts["header:X-S"] = hs
+		}
+		specOK := verifSchemaAccepts(openapiDoc, "POST /strs", parts)
+		verifAssert("openapi:schema-accepts-iff-server-accepts", specOK == (called == 1))
 	}
 }
